@@ -10,7 +10,7 @@ import (
 // Two entry files (client_main.lua, server_main.lua) share util.lua; client_main also loads player.lua, which
 // forms a lazy require cycle with inventory.lua; tools/dump.lua is a script no entry file reaches ("scattered")
 // that requires util, player and late (late.lua does not exist at first and defines a global that the script and
-// client_main.lua read).
+// client_main.lua read - at the top level and inside a function: the two are resolved by different code).
 // A solver-chosen history of EVENTS file events - util.lua saved with another parameter list and another global,
 // late.lua created / deleted, the scattered script deleted / created - runs through HandleFileEventChanges with
 // the real pools; after every event the diagnostics of every file equal those of a fresh analysis of the files
@@ -27,11 +27,11 @@ func VerifRun_ProjMode() {
 	cm, sm, util := root+"/client_main.lua", root+"/server_main.lua", root+"/util.lua"
 	player, inv := root+"/player.lua", root+"/inventory.lua"
 	dump, late := root+"/tools/dump.lua", root+"/late.lua"
-	verifVFSPut(cm, []byte("local u = require(\"util\")\nlocal p = require(\"player\")\nlocal l = require(\"late\")\nq1 = FormatMoney(1, 2, 3)\nq2 = u\nq3 = p\nq4 = LateG\nq5 = l\n"))
+	verifVFSPut(cm, []byte("local u = require(\"util\")\nlocal p = require(\"player\")\nlocal l = require(\"late\")\nq1 = FormatMoney(1, 2, 3)\nq2 = u\nq3 = p\nq4 = LateG\nq5 = l\nlocal function inClient()\n return FormatMoney(1, 2, 3), LateG, ExtraG\nend\nq6 = inClient\n"))
 	verifVFSPut(sm, []byte("local u = require(\"util\")\nr1 = FormatMoney(1, 2, 3)\nr2 = u\n"))
 	verifVFSPut(player, []byte("local function inv() return require(\"inventory\") end\nPlayerG = 1\nreturn { inv = inv }\n"))
 	verifVFSPut(inv, []byte("local function pl() return require(\"player\") end\nreturn { pl = pl }\n"))
-	dumpSrc := "local u = require(\"util\")\nlocal p = require(\"player\")\nlocal l = require(\"late\")\ns1 = FormatMoney(1, 2)\ns2 = ExtraG\ns3 = LateG\ns4 = PlayerG\ns5 = u\ns6 = p\ns7 = l\n"
+	dumpSrc := "local u = require(\"util\")\nlocal p = require(\"player\")\nlocal l = require(\"late\")\ns1 = FormatMoney(1, 2)\ns2 = ExtraG\ns3 = LateG\ns4 = PlayerG\ns5 = u\ns6 = p\ns7 = l\nlocal function inDump()\n return FormatMoney(1, 2), ExtraG, LateG, PlayerG\nend\ns8 = inDump\n"
 	lateSrc := "LateG = 1\nreturn {}\n"
 	uv := 0
 	verifVFSPut(util, []byte(pmUtil[uv]))
